@@ -38,7 +38,7 @@ def Closed.panics (p : Closed) : Bool := p.priceEntryAverage * p.quantityAbsMax 
 def calculatePnlReturn (pnlRealised priceEntryAverage quantityAbsMax : Rat) : Rat :=
   pnlRealised / (priceEntryAverage * quantityAbsMax)
 
-/-- `DataSetSummary` (dataset/mod.rs:13-19), fields `count`, `sum` only. `Default` is zeros. -/
+/-- `DataSetSummary` (dataset/mod.rs:46-51), fields `count`, `sum` only. `Default` is zeros. -/
 structure DataSetSummary where
   count : Rat
   sum : Rat
@@ -46,11 +46,11 @@ structure DataSetSummary where
 
 def DataSetSummary.default : DataSetSummary := { count := 0, sum := 0 }
 
-/-- `DataSetSummary::update` (dataset/mod.rs:22-37), `count += 1; sum += next_value`. -/
+/-- `DataSetSummary::update` (dataset/mod.rs:61-76), `count += 1; sum += next_value`. -/
 def DataSetSummary.update (d : DataSetSummary) (nextValue : Rat) : DataSetSummary :=
   { count := d.count + 1, sum := d.sum + nextValue }
 
-/-- `PnLReturns` (pnl.rs:22-39). -/
+/-- `PnLReturns` (pnl.rs:23-39). -/
 structure PnLReturns where
   pnlRaw : Rat
   total : DataSetSummary
@@ -60,7 +60,7 @@ structure PnLReturns where
 def PnLReturns.default : PnLReturns :=
   { pnlRaw := 0, total := DataSetSummary.default, losses := DataSetSummary.default }
 
-/-- `PnLReturns::update` (pnl.rs:44-63). `is_sign_negative` is `< 0`: a `Decimal` quotient is never
+/-- `PnLReturns::update` (pnl.rs:43-63). `is_sign_negative` is `< 0`: a `Decimal` quotient is never
 the negative zero (probed, DESIGN §8). -/
 def PnLReturns.update (s : PnLReturns) (position : Closed) : PnLReturns :=
   let pnlRaw := s.pnlRaw + position.pnlRealised
@@ -74,7 +74,7 @@ def PnLReturns.update (s : PnLReturns) (position : Closed) : PnLReturns :=
 
 def ratAbs (x : Rat) : Rat := if x < 0 then -x else x
 
-/-- `WinRate::calculate` (win_rate.rs:19-26). -/
+/-- `WinRate::calculate` (win_rate.rs:18-25). -/
 def WinRate.calculate (wins total : Rat) : Option Rat :=
   if total = 0 then none else some (ratAbs wins / ratAbs total)
 
@@ -82,7 +82,7 @@ def WinRate.calculate (wins total : Rat) : Option Rat :=
 def decimalMax : Rat := 79228162514264337593543950335
 def decimalMin : Rat := -decimalMax
 
-/-- `ProfitFactor::calculate` (profit_factor.rs:21-38). -/
+/-- `ProfitFactor::calculate` (profit_factor.rs:21-39). -/
 def ProfitFactor.calculate (profitsGrossAbs lossesGrossAbs : Rat) : Option Rat :=
   if profitsGrossAbs = 0 ∧ lossesGrossAbs = 0 then none
   else
@@ -91,27 +91,27 @@ def ProfitFactor.calculate (profitsGrossAbs lossesGrossAbs : Rat) : Option Rat :
       else if profitsGrossAbs = 0 then decimalMin
       else ratAbs profitsGrossAbs / ratAbs lossesGrossAbs)
 
-/-- `TearSheet` (instrument.rs:30-43), the three fields C16 is about. -/
+/-- `TearSheet` (instrument.rs:28-39), the three fields C16 is about. -/
 structure TearSheet where
   pnl : Rat
   winRate : Option Rat
   profitFactor : Option Rat
   deriving DecidableEq, Repr, Inhabited
 
-/-- `TearSheetGenerator` (instrument.rs:49-62) without clock and drawdown generators. -/
+/-- `TearSheetGenerator` (instrument.rs:43-54) without clock and drawdown generators. -/
 structure TearSheetGenerator where
   pnlReturns : PnLReturns
   deriving DecidableEq, Repr, Inhabited
 
-/-- `TearSheetGenerator::init` (instrument.rs:65-74). -/
+/-- `TearSheetGenerator::init` (instrument.rs:58-67). -/
 def TearSheetGenerator.init : TearSheetGenerator := { pnlReturns := PnLReturns.default }
 
-/-- `TearSheetGenerator::update_from_position` (instrument.rs:77-91). -/
+/-- `TearSheetGenerator::update_from_position` (instrument.rs:70-85). -/
 def TearSheetGenerator.updateFromPosition (g : TearSheetGenerator) (position : Closed) :
     TearSheetGenerator :=
   { pnlReturns := g.pnlReturns.update position }
 
-/-- `TearSheetGenerator::generate` (instrument.rs:96-170): argument selection for `WinRate`,
+/-- `TearSheetGenerator::generate` (instrument.rs:90-165): argument selection for `WinRate`,
 `ProfitFactor` and `pnl`. -/
 def TearSheetGenerator.generate (g : TearSheetGenerator) : TearSheet :=
   let winRate := WinRate.calculate
@@ -132,24 +132,24 @@ structure BalSnap where
   balance : Balance
   deriving DecidableEq, Repr, Inhabited
 
-/-- `TearSheetAssetGenerator` (asset.rs:36-42), field `balance_now` (drawdowns: C18). -/
+/-- `TearSheetAssetGenerator` (asset.rs:24-29), field `balance_now` (drawdowns: C18). -/
 structure TearSheetAssetGenerator where
   balanceNow : Option Balance
   deriving DecidableEq, Repr, Inhabited
 
 def TearSheetAssetGenerator.default : TearSheetAssetGenerator := { balanceNow := none }
 
-/-- `TearSheetAssetGenerator::update_from_balance` (asset.rs:56-66). -/
+/-- `TearSheetAssetGenerator::update_from_balance` (asset.rs:43-53). -/
 def TearSheetAssetGenerator.updateFromBalance (g : TearSheetAssetGenerator) (s : BalSnap) :
     TearSheetAssetGenerator :=
   { g with balanceNow := some s.balance }
 
-/-- `TearSheetAsset` (asset.rs:19-31), field `balance_end`. -/
+/-- `TearSheetAsset` (asset.rs:15-20), field `balance_end`. -/
 structure TearSheetAsset where
   balanceEnd : Option Balance
   deriving DecidableEq, Repr, Inhabited
 
-/-- `TearSheetAssetGenerator::generate` (asset.rs:69-82). -/
+/-- `TearSheetAssetGenerator::generate` (asset.rs:56-69). -/
 def TearSheetAssetGenerator.generate (g : TearSheetAssetGenerator) : TearSheetAsset :=
   { balanceEnd := g.balanceNow }
 
@@ -162,7 +162,7 @@ structure AssetState where
 def AssetState.default : AssetState :=
   { statistics := TearSheetAssetGenerator.default, balance := none }
 
-/-- `AssetState::update_from_balance` (asset/mod.rs:115-128): first snapshot always applies; later
+/-- `AssetState::update_from_balance` (asset/mod.rs:115-127): first snapshot always applies; later
 ones only when not older than the current one. -/
 def AssetState.updateFromBalance (a : AssetState) (s : BalSnap) : AssetState :=
   match a.balance with
@@ -178,7 +178,7 @@ def modifyAt {α : Type} (l : List α) (i : Nat) (f : α → α) : List α :=
   | some x => l.set i (f x)
   | none => l
 
-/-- `TradingSummaryGenerator` (summary/mod.rs:57-79): the two keyed maps. -/
+/-- `TradingSummaryGenerator` (summary/mod.rs:56-78): the two keyed maps. -/
 structure TradingSummaryGenerator where
   instruments : List TearSheetGenerator
   assets : List TearSheetAssetGenerator
@@ -190,19 +190,19 @@ structure TradingSummary where
   assets : List TearSheetAsset
   deriving DecidableEq, Repr, Inhabited
 
-/-- `TradingSummaryGenerator::update_from_position` (summary/mod.rs:118-130), keyed by
-`InstrumentIndex` (`get_index_mut`, mod.rs:195-201). -/
+/-- `TradingSummaryGenerator::update_from_position` (summary/mod.rs:117-129), keyed by
+`InstrumentIndex` (`get_index_mut`, mod.rs:205-210). -/
 def TradingSummaryGenerator.updateFromPosition (g : TradingSummaryGenerator) (i : Nat)
     (position : Closed) : TradingSummaryGenerator :=
   { g with instruments := modifyAt g.instruments i (·.updateFromPosition position) }
 
-/-- `TradingSummaryGenerator::update_from_balance` (summary/mod.rs:133-144), keyed by `AssetIndex`;
-no staleness guard on this path. -/
+/-- `TradingSummaryGenerator::update_from_balance` (summary/mod.rs:132-142; `asset_mut` 226-231),
+keyed by `AssetIndex`; no staleness guard on this path. -/
 def TradingSummaryGenerator.updateFromBalance (g : TradingSummaryGenerator) (a : Nat)
     (s : BalSnap) : TradingSummaryGenerator :=
   { g with assets := modifyAt g.assets a (·.updateFromBalance s) }
 
-/-- `TradingSummaryGenerator::generate` (summary/mod.rs:150-177): entry-wise `generate`, keys kept. -/
+/-- `TradingSummaryGenerator::generate` (summary/mod.rs:148-176): entry-wise `generate`, keys kept. -/
 def TradingSummaryGenerator.generate (g : TradingSummaryGenerator) : TradingSummary :=
   { instruments := g.instruments.map (·.generate), assets := g.assets.map (·.generate) }
 
@@ -214,7 +214,7 @@ structure EngState where
   deriving DecidableEq, Repr, Inhabited
 
 /-- `EngineState::builder(..).build()`: `n` instruments, `m` assets, all generators at their initial
-value (`TearSheetGenerator::init`, `generate_empty_indexed_asset_states`, asset/mod.rs:158-180). -/
+value (`TearSheetGenerator::init`, `generate_empty_indexed_asset_states`, asset/mod.rs:154-176). -/
 def EngState.init (n m : Nat) : EngState :=
   { instruments := List.replicate n TearSheetGenerator.init,
     assets := List.replicate m AssetState.default }
@@ -237,7 +237,7 @@ def EngState.step (s : EngState) : Ev → EngState
 
 def EngState.run (s : EngState) (evs : List Ev) : EngState := evs.foldl EngState.step s
 
-/-- `TradingSummaryGenerator::init` (summary/mod.rs:85-111) as called by
+/-- `TradingSummaryGenerator::init` (summary/mod.rs:82-111) as called by
 `Engine::trading_summary_generator` (engine/mod.rs:318-329): clones every instrument's
 `tear_sheet` and every asset's `statistics`, in map order. -/
 def TradingSummaryGenerator.init (s : EngState) : TradingSummaryGenerator :=
@@ -260,7 +260,8 @@ def directSummary (n m : Nat) (evs : List Ev) : TradingSummary :=
   ((TradingSummaryGenerator.init (EngState.init n m)).run evs).generate
 
 /-- A round trip through the position manager: opening fill then an exactly closing fill of the
-opposite side (position.rs `From<&Trade>` 369-391 then the "close exactly" arm 277-290):
+opposite side (position.rs `From<&Trade>` 380-398 then the "close exactly" arm 281-290, `calculate_pnl_realised`
+527-542):
 `pnl_realised = −fee_in + (±(exit − entry)·qty − fee_out)`, `price_entry_average = entry`,
 `quantity_abs_max = |qty|`. Only used to feed engine-level correspondence cases; C02 owns the
 position model. `long = true` for a `Buy` entry. -/
